@@ -294,7 +294,7 @@ def run_case(case, vector):
     if any(f["seam"] == "lib" for f in case.get("faults", ())):
         faults.install_simlib(vector)
     viol = []
-    stats = {"steps": 0, "raised": 0, "natural_exc": {}, "faults_planned": len(case.get("faults", ())), "faults_fired": {"lib": 0, "flt": 0},
+    stats = {"steps": 0, "raised": 0, "natural_exc": {}, "faults_planned": len(case.get("faults", ())), "faults_fired": {"lib": 0, "flt": 0, "alloc": 0},
              "table_cells": 0, "states": set()}
     gn = case["gnames"]
     dim = len(gn)
